@@ -431,6 +431,8 @@ func (m *Module) renderTypes(p *Pkg) world.File {
 			b.WriteString("}\n\n")
 			if t.Src.Kind != "struct" {
 				fmt.Fprintf(&b, "func (x %s) VID() int { return x.ID }\n\n", t.Name)
+			} else {
+				fmt.Fprintf(&b, "func (x %s) VID() int { return 0 }\n\n", t.Name)
 			}
 		case "uslice", "uarray", "umap", "uptr", "uchan", "ustruct":
 			// an unnamed type: nothing to declare
@@ -573,7 +575,7 @@ func (m *Module) renderTypes(p *Pkg) world.File {
 	if needWire {
 		extra = append(extra, "github.com/google/wire")
 	}
-	head := "package " + p.Name + "\n\n" + m.importBlock(p.Idx, imports, extra, nil)
+	head := "package " + p.Name + "\n\n" + m.importBlock(p.Idx, imports, extra, p.AnonT)
 	return world.File{Path: p.Path + "/types.go", Data: []byte(head + b.String())}
 }
 
@@ -654,6 +656,10 @@ func (m *Module) renderInjectors(p *Pkg) []world.File {
 		}
 		if n == 0 {
 			continue
+		}
+		if file == 0 && p.CopyFns >= 2 {
+			// other kinds of declarations wire copies into the generated file
+			fmt.Fprintf(&b, "// copiedT%d is copied into the generated file.\ntype copiedT%d struct{ cleanup, err int }\n\nconst copiedC%d = %d\n\nvar copiedV%d = copiedT%d{cleanup: copiedC%d}\n\n", p.Idx, p.Idx, p.Idx, p.Idx+3, p.Idx, p.Idx, p.Idx)
 		}
 		if file == 0 {
 			for i := 0; i < p.CopyFns; i++ {
